@@ -74,3 +74,16 @@ def replay_margin(args, outdir):
     if ok:
         return dict(reproduced=False)
     return dict(reproduced=True, signature='L2_margin:%s' % goal, what='can_be_yielded declares a molecule closed although a later fragment can share its site: %r' % a)
+
+
+def replay_span(args, outdir):
+    from singlecellmultiomics.molecule import Molecule
+    a = args['cex']
+    SP, LP, PP = [0, 10, 60, 200], [0, 5, 100], [0, 49, 50, 51, 111, 261, 400]
+    spans = [(SP[a['s0']], SP[a['s0']] + LP[a['l0']]), (SP[a['s1']], SP[a['s1']] + LP[a['l1']])]
+    if a['l2'] >= 0:
+        spans.append((SP[a['s2']], SP[a['s2']] + LP[a['l2']]))
+    clause = S.span_growth_clause(Molecule, spans, 100, (PP[a['p0']],))
+    if clause is None:
+        return dict(reproduced=False)
+    return dict(reproduced=True, signature='L2b_window_tracks_span:%s' % clause.split('.')[0], what='%s: fragment spans %r cache_size 100 probe %d' % (clause, spans, PP[a['p0']]))
